@@ -1,5 +1,27 @@
 """C01: RTMP session round trip (spec/rtmp/RtmpSession.tla, chunk-level refinement RtmpChunk.tla)."""
+import glob
+import json
 import os
+import random
+
+RACE = {"pair": True}
+
+
+def _pairs(ctx, cases, path, n):
+    """n pairs of different small behaviours of the case file (seeded): the input of the two-sessions-in-one-process stage"""
+    small = []
+    for line in open(cases):
+        c = json.loads(line)
+        if c["steps"] and sum(s["m"]["len"] for s in c["steps"]) <= 1200:
+            small.append(line.strip())
+    small.sort()
+    if len(small) < 2 * n:
+        n = len(small) // 2
+    pick = random.Random(ctx.seed).sample(small, 2 * n)
+    with open(path, "w") as f:
+        for k in range(n):
+            f.write('{"a":%s,"b":%s}\n' % (pick[2 * k], pick[2 * k + 1]))
+    return n
 
 
 def run(ctx):
@@ -13,7 +35,9 @@ def run(ctx):
                 "written sequence with nothing written behind its last message, and one more read finds no message; "
                 "a case is distinct if its write sequence or its schedule differs")
     ctx.exhaustive = True
-    ctx.assumptions += ["payload bytes are a position-dependent pattern, not all byte strings",
+    ctx.assumptions += ["sessions of one process: pairs of small behaviours (payload sum <= 1200 bytes) run concurrently, a seeded sample, "
+                        "not all pairs; interference is looked for between two Protocol pairs, not between Handshake objects",
+                        "payload bytes are a position-dependent pattern, not all byte strings",
                         "handshake calls are made in an order RTMP 1.0 5.2.1 allows (S0 after C0, C2 after S1, S2 after C1, session data only "
                         "after the own handshake); one Handshake object per endpoint; the replay is single-threaded, a read is only called "
                         "when its bytes are in the transport",
@@ -61,3 +85,27 @@ def run(ctx):
         tlc("rtmp", "MC_RtmpSession", "Gen_Session_hssim.cfg", cases_to=cases, simulate=600, depth=40, workers=1, timeout=900)
     res = ctx.replay("session", cases, timeout=3000)
     ctx.judge("session", cases, res)
+
+    # NoSharedState (RtmpSession.tla): the specification is one session; a process runs many.  Two behaviours of the case file
+    # are replayed at the same time in one process, turns changing at every transport read (1-byte / random segmentation), under
+    # the race detector: a wrong message in either session or a race report inside package rtmp is a failing result.
+    pairs = os.path.join(ctx.out, "pairs.ndjson")
+    npairs = _pairs(ctx, cases, pairs, 300 if t == "quick" else 1500)
+    racedir = os.path.join(ctx.out, "race")
+    os.makedirs(racedir, exist_ok=True)
+    for fn in glob.glob(os.path.join(racedir, "race*")):
+        os.remove(fn)
+    gorace = {"GORACE": "log_path=%s/race halt_on_error=0 exitcode=0" % racedir}
+    os.environ.update(gorace)       # also for re-runs of the stage
+    pres = ctx.replay("pair", pairs, race=True, timeout=1200, env_extra=gorace)
+    ctx.judge("pair", pairs, pres, race=True, reproduce=False)   # strict-alternation pairs are deterministic; a race report is evidence in itself
+    reports = []
+    for fn in glob.glob(os.path.join(racedir, "race*")):
+        for blk in open(fn, errors="replace").read().split("=================="):
+            if "DATA RACE" in blk and "go-oryx-lib/rtmp" in blk:
+                reports.append(blk.strip())
+    ctx.notes["session_pairs"] = npairs
+    ctx.notes["race_reports"] = len(reports)
+    if reports:
+        ctx.fail_results.append(("pair", {"race": True}, {"ok": False, "deviation": "C01/sessions-share-state",
+                                                          "what": "race detector, two sessions in one process: " + reports[0][:1500]}))
